@@ -72,6 +72,14 @@ theorem leak_verdict_arms_are_the_models (c : Cfg) (u : U) (hp : u.phase = .drai
     simp only [guardDrain, applyDrain]
     simp (config := { decide := true })
 
+/-- **a timeout verdict wins over the exit status, and nothing else is ever recorded during the loop**: in executor.rs, as read on
+    this run, the attempt's result is `status.unwrap_or_else(|| create_execution_result(exit status, errors, leaked))` in the test
+    loop and in the setup-script loop, and `status` is only ever set to `Timeout` (on Windows also to a job-object kill) — which is
+    `U.outcome`: `if timedOut then timeout else fromExit leaked` (a process that exits 0 after nextest's SIGTERM has still timed out) -/
+theorem timeout_verdict_wins : (∀ r ∈ Gen.verdictShape, r.2 = true) ∧
+    (∀ u : U, u.outcome = if u.timedOut then Outcome.timeout else Outcome.fromExit u.leaked) :=
+  ⟨by decide, fun _ => rfl⟩
+
 -- not vacuous: leak timeout 200 ms; the pipes close 150 ms after the exit (not leaky), or 120 + 90 ms after it (leaky)
 example : let c : Cfg := { period := 1000, terminateAfter := none, grace := 100, leak := 200 }
     ((run c (U.spawn c) [.childExit, .time 150, .fdsDone]).1.leaked, (run c (U.spawn c) [.childExit, .time 120, .time 90, .fdsDone]).1.leaked) = (false, true) := by
